@@ -1098,8 +1098,9 @@ class PlanWalk(Walk):
         return self
 
 
-def plan_matrix(tier):
-    """the plans of one tier, in a fixed order"""
+def plan_matrix(tier, policies=False):
+    """the plans of one tier, in a fixed order; `policies`: also the three offline-queue policies that reject something,
+    with operations of every kind submitted while offline, right before the close, and in flight"""
     L = PlanWalk.LASTS
     stage1 = [(r, l) for r in (0, 1) for l in L]
     if tier == "quick":
@@ -1123,4 +1124,17 @@ def plan_matrix(tier):
                             if s2 is not None:
                                 stages.append({"sp": 1, "rounds": s2[0], "last": s2[1]})
                             plans.append({"v": v, "drain": drain, "ops": ops, "stages": stages, "final_sp": final_sp})
+    if policies:
+        for policy in ("acked", "qos1plus", "nothing"):
+            for v in (5, 311):
+                for ops in (["sub", "pub0", "pub2"], ["unsub", "pub1"]):
+                    for s1 in stage1:
+                        for s2 in ([None, (0, L[3])] if tier == "quick" else [None, (0, L[3]), (0, L[1]), (1, L[2])]):
+                            for final_sp in (1, 0):
+                                for offline in ((False, True) if tier != "quick" else (s1[0] == 0,)):
+                                    stages = [{"sp": 0, "rounds": s1[0], "last": s1[1], "ops_before_close": ["pub1", "sub", "pub0"] if offline else []}]
+                                    if s2 is not None:
+                                        stages.append({"sp": 1, "rounds": s2[0], "last": s2[1]})
+                                    plans.append({"v": v, "drain": "none", "policy": policy, "ops": ops, "stages": stages, "final_sp": final_sp,
+                                                  "offline_ops": ["pub2", "unsub", "pub0"] if offline else []})
     return plans
